@@ -50,9 +50,30 @@ def w1(ctx):
     ctx.roleset("W_usages", sorted(uw))
     allw = hw | nw | uw
     ctx.floor("index writers", len(allw), 2)
+    # a private helper that updates one of the indexes for its callers (e.g. `update_usages(sh, Register | Unregister)`) is part
+    # of those callers: every one of its callers must itself be an index writer, and the callers are examined with the helper
+    # spliced in (specialised to the constant they pass)
+    callers = {}
+    for fb in crate.fns():
+        for c in fb.all_calls():
+            if c.callee and c.callee.target in allw and not c.body.blocks[c.bb]["cleanup"]:
+                callers.setdefault(c.callee.target, set()).add(fb.id)
+    helpers = {w for w in allw if crate.bodies[w].vis != "pub" and callers.get(w) and callers[w] <= (allw - {w})
+               and [n for n, s_ in (("h", hw), ("n", nw), ("u", uw)) if w not in s_]}
+
+    def writes(view, field):
+        for c in view.all_calls():
+            if c.callee and c.callee.name in ("insert", "remove", "entry", "get_mut", "retain", "clear") and c.args and not c.body.blocks[c.bb]["cleanup"]:
+                r = strip_role(c.body.role_of_operand(c.args[0]))
+                if isinstance(r, tuple) and r[0] == "field" and r[2] == field:
+                    return True
+        return False
     for wid in sorted(allw):
-        b = crate.bodies[wid]
-        missing = [n for n, s in (("hashcons", hw), ("EClass.nodes", nw), ("EClass.usages", uw)) if wid not in s]
+        if wid in helpers:
+            ctx.ok("index-helper:" + C.fkey(crate.bodies[wid]), "%s updates an index on behalf of the index writers %s only" % (C.short(wid), sorted(C.short(x) for x in callers[wid])), where_of(crate.bodies[wid]))
+            continue
+        b = mir.inline_view(crate, crate.bodies[wid], depth=2, policy=helpers) if helpers else crate.bodies[wid]
+        missing = [n for n, s, f_ in (("hashcons", hw, "hashcons"), ("EClass.nodes", nw, "nodes"), ("EClass.usages", uw, "usages")) if wid not in s and not (b is not crate.bodies[wid] and writes(b, f_))]
         ctx.check(not missing, "writes-all-three:" + C.fkey(b), "%s writes hashcons, nodes and usages" % C.short(wid),
                   "%s writes some of the three e-node indexes but not %s — the indexes the consistency check compares can drift apart" % (C.short(wid), missing), where_of(b))
         if missing:
